@@ -287,6 +287,9 @@ class Sql:
             it.st.assume(pc.t >= 0)
             it.st.effect('PAGE_COUNT', value=pc.t)
             return [(pc,)]
+        if ps['name'] == 'integrity_check' and ps['value'] is None:
+            self.env.use("PRAGMA integrity_check returns [('ok',)] (database file itself not corrupted: outside the property)")
+            return [('ok',)]
         raise Unsupported('PRAGMA %s' % ps['name'])
 
     # ---- expression evaluation over a row
